@@ -2123,3 +2123,361 @@ Proof.
   - unfold rejected. destruct (ingest_group r) as [g|]; [|reflexivity]. cbn [with_lists cf_accept].
     apply negb_false_iff. apply storage_accept_spec. apply H. reflexivity.
 Qed.
+
+(* ------------------------------------------------------------------------------------------ *)
+(* 12. Every stored commit's timestamp is <= g_last: an invariant of step                      *)
+(* ------------------------------------------------------------------------------------------ *)
+
+(* 12.1 ring level: a slot of the new ring carries the arriving commit's timestamp or the timestamp of an old slot ---------- *)
+
+Definition pl_ok (r : ring) (p : place) : Prop :=
+  match p with
+  | PReplace a x b => r = a ++ x :: b
+  | PShift a pv b => r = a ++ Some pv :: b
+  | PDrop | PAppend => True
+  end.
+
+Lemma pl_push y r p : pl_ok r p -> pl_ok (y :: r) (push y p).
+Proof. destruct p; cbn; intros H; try exact I; rewrite H; reflexivity. Qed.
+
+Lemma pl_scan r order : pl_ok r (scan r order).
+Proof.
+  induction r as [|[pv|] below IH]; cbn [scan]; [exact I| |reflexivity].
+  destruct (co_order pv <? order); [reflexivity|].
+  destruct (co_order pv =? order); [exact I|].
+  destruct below as [|y below']; [reflexivity|].
+  apply pl_push. exact IH.
+Qed.
+
+Lemma pl_find r order : pl_ok r (find_place r order).
+Proof.
+  unfold find_place. destruct r as [|[nw|] r']; try exact I.
+  destruct (last (Some nw :: r') None) as [ol|].
+  - destruct (order <=? co_order ol); [exact I|]. destruct (order <=? co_order nw); [apply pl_scan|exact I].
+  - destruct (order <=? co_order nw); [apply pl_scan|exact I].
+Qed.
+
+Lemma in_tl {A} (x : A) l : In x (tl l) -> In x l.
+Proof. destruct l; cbn; auto. Qed.
+
+Lemma in_removelast {A} (x : A) l : In x (removelast l) -> In x l.
+Proof.
+  induction l as [|a l IH]; cbn; [auto|]. destruct l as [|b l']; [intros []|].
+  intros [H|H]; [left; exact H|right; apply IH; exact H].
+Qed.
+
+Lemma hd_in {A} (l : list (option A)) x : hd None l = Some x -> In (Some x) l.
+Proof. destruct l; cbn; [discriminate|]. intros ->. left. reflexivity. Qed.
+
+Definition ts_from (r : ring) (c : commit) (e : coff) : Prop :=
+  co_ts e = cm_ts c \/ exists pv, In (Some pv) r /\ co_ts e = co_ts pv.
+
+Lemma ts_from_old r c e : In (Some e) r -> ts_from r c e.
+Proof. intros H. right. exists e. split; [exact H|reflexivity]. Qed.
+
+Lemma store_ts md r p c lag e : pl_ok r p -> In (Some e) (store md r p c lag) -> ts_from r c e.
+Proof.
+  intros Hok Hin. destruct p as [| |a x b|a pv b]; cbn [store pl_ok] in *.
+  - apply ts_from_old. exact Hin.
+  - destruct (hd None r) as [pv|] eqn:Eh.
+    + destruct (merges md pv c).
+      * destruct Hin as [H|H]; [injection H as <-; right; exists pv; split; [apply hd_in; exact Eh|reflexivity]|].
+        apply ts_from_old. apply in_tl. exact H.
+      * destruct Hin as [H|H]; [injection H as <-; left; reflexivity|]. apply ts_from_old. apply in_removelast. exact H.
+    + destruct Hin as [H|H]; [injection H as <-; left; reflexivity|]. apply ts_from_old. apply in_removelast. exact H.
+  - subst r. destruct b as [|[pv|] b'].
+    + destruct (hd None (a ++ [x])) as [pv|] eqn:Eh.
+      * destruct (merges md pv c).
+        -- destruct Hin as [H|H]; [injection H as <-; right; exists pv; split; [apply hd_in; exact Eh|reflexivity]|].
+           apply ts_from_old. apply in_tl. exact H.
+        -- apply in_app_or in Hin. destruct Hin as [H|[H|[]]]; [apply ts_from_old; apply in_or_app; left; exact H|].
+           injection H as <-. left. reflexivity.
+      * apply in_app_or in Hin. destruct Hin as [H|[H|[]]]; [apply ts_from_old; apply in_or_app; left; exact H|].
+        injection H as <-. left. reflexivity.
+    + destruct (merges md pv c).
+      * apply in_app_or in Hin. destruct Hin as [H|[H|[H|H]]].
+        -- apply ts_from_old. apply in_or_app. left. exact H.
+        -- apply ts_from_old. apply in_or_app. right. left. exact H.
+        -- injection H as <-. right. exists pv. split; [apply in_or_app; right; right; left; reflexivity|reflexivity].
+        -- apply ts_from_old. apply in_or_app. right. right. right. exact H.
+      * apply in_app_or in Hin. destruct Hin as [H|[H|H]].
+        -- apply ts_from_old. apply in_or_app. left. exact H.
+        -- injection H as <-. left. reflexivity.
+        -- apply ts_from_old. apply in_or_app. right. right. exact H.
+    + apply in_app_or in Hin. destruct Hin as [H|[H|H]].
+      * apply ts_from_old. apply in_or_app. left. exact H.
+      * injection H as <-. left. reflexivity.
+      * apply ts_from_old. apply in_or_app. right. right. exact H.
+  - subst r. destruct (merges md pv c).
+    + apply in_app_or in Hin. destruct Hin as [H|[H|H]].
+      * apply ts_from_old. apply in_or_app. left. exact H.
+      * injection H as <-. right. exists pv. split; [apply in_or_app; right; left; reflexivity|reflexivity].
+      * apply ts_from_old. apply in_or_app. right. right. exact H.
+    + apply in_app_or in Hin. destruct Hin as [H|[H|H]].
+      * apply ts_from_old. apply in_or_app. left. exact H.
+      * injection H as <-. left. reflexivity.
+      * apply ts_from_old. apply in_or_app. right. apply in_removelast in H. exact H.
+Qed.
+
+Lemma ring_step_ts md w c lag w' app :
+  ring_step md w c lag = (w', app) ->
+  (commit_stored w (cm_order c) = false -> w' = w) /\
+  (forall e, In (Some e) w' -> ts_from w c e).
+Proof.
+  unfold ring_step, commit_stored. pose proof (pl_find w (cm_order c)) as Hok.
+  destruct (find_place w (cm_order c)) as [| |a x b|a pv b] eqn:Ef; intros H; injection H as <- _;
+    (split; [intros Hs; try discriminate Hs; reflexivity|]); intros e Hin.
+  - apply ts_from_old. exact Hin.
+  - exact (store_ts md w PAppend c (Some lag) e Hok Hin).
+  - exact (store_ts md w (PReplace a x b) c None e Hok Hin).
+  - exact (store_ts md w (PShift a pv b) c None e Hok Hin).
+Qed.
+
+(* 12.2 storage level -------------------------------------------------------------------------------------------------------- *)
+
+(* x is the timestamp of a commit stored in some partition of some topic of this topic map *)
+Definition tents (tops : amap (list cpartition)) (x : Z) : Prop :=
+  exists t parts pr, In (t, parts) tops /\ In pr parts /\ In x (part_ts pr).
+
+Lemma stored_ts_tents grp x : In x (stored_ts grp) <-> tents (g_topics grp) x.
+Proof.
+  unfold stored_ts, tents. rewrite in_flat_map. split.
+  - intros [[t parts] [Hin Hx]]. cbn [snd] in Hx. apply in_flat_map in Hx. destruct Hx as [pr [Hp Hx]]. eauto 6.
+  - intros [t [parts [pr [Hin [Hp Hx]]]]]. exists (t, parts). split; [exact Hin|]. cbn [snd]. apply in_flat_map. eauto.
+Qed.
+
+Definition grp_ok (grp : cgroup) : Prop := forall x, tents (g_topics grp) x -> x <= g_last grp.
+Definition ts_inv (s : state) : Prop :=
+  forall c cl g grp, get s c = Some cl -> get (cl_consumer cl) g = Some grp -> grp_ok grp.
+
+Lemma tents_remove tops t x : tents (remove tops t) x -> tents tops x.
+Proof. intros [t0 [parts [pr [Hin H]]]]. exists t0, parts, pr. split; [exact (in_remove _ _ _ Hin)|exact H]. Qed.
+
+Lemma tents_set tops t parts' x :
+  tents (set tops t parts') x -> (exists pr, In pr parts' /\ In x (part_ts pr)) \/ tents tops x.
+Proof.
+  intros [t0 [parts [pr [Hin [Hp Hx]]]]]. apply in_set_cases in Hin. destruct Hin as [Heq|Hin].
+  - injection Heq as _ ->. left. eauto.
+  - right. exists t0, parts, pr. auto.
+Qed.
+
+Lemma in_set_nth {A} (l : list A) i v y : In y (set_nth l i v) -> y = v \/ In y l.
+Proof.
+  revert i. induction l as [|a l IH]; intros i; cbn; [tauto|]. destruct i as [|i]; cbn.
+  - intros [H|H]; [left; symmetry; exact H|right; right; exact H].
+  - intros [H|H]; [right; left; exact H|]. destruct (IH i H) as [H'|H']; [left; exact H'|right; right; exact H'].
+Qed.
+
+Lemma somes_repeat_none {A} n : @somes A (repeat None n) = [].
+Proof. unfold somes. induction n; cbn; [reflexivity|exact IHn]. Qed.
+
+Lemma nth_in_or_default_cp (l : list cpartition) i d : In (nth i l d) l \/ nth i l d = d.
+Proof. destruct (nth_in_or_default i l d) as [H|H]; [left; exact H|right; exact H]. Qed.
+
+Lemma in_ring_ts w x : In x (ring_ts w) -> exists e, In (Some e) w /\ co_ts e = x.
+Proof.
+  unfold ring_ts, somes. intros H. apply in_map_iff in H. destruct H as [e [He Hin]]. exists e. split; [|exact He].
+  apply in_flat_map in Hin. destruct Hin as [[e'|] [Hw He']]; [|destruct He']. destruct He' as [->|[]]. exact Hw.
+Qed.
+
+Lemma ring_ts_in w e : In (Some e) w -> In (co_ts e) (ring_ts w).
+Proof.
+  intros H. unfold ring_ts, somes. apply in_map. apply in_flat_map. exists (Some e). split; [exact H|left; reflexivity].
+Qed.
+
+(* the partitions getConsumerPartition returns are old ones or carry no commit *)
+Lemma gcp_parts cf grp t p cnt pr :
+  In pr (get_consumer_partition cf grp t p cnt) ->
+  part_ts pr = [] \/ exists l0, get (g_topics grp) t = Some l0 /\ In pr l0.
+Proof.
+  unfold get_consumer_partition. cbv zeta.
+  set (l0 := match get (g_topics grp) t with Some l => l | None => [] end).
+  set (l1 := if Z.of_nat (length l0) <=? p then l0 ++ repeat empty_partition (Z.to_nat cnt - length l0) else l0).
+  assert (H1 : forall q, In q l1 -> part_ts q = [] \/ exists l, get (g_topics grp) t = Some l /\ In q l).
+  { intros q Hq. assert (Hq0 : In q l0 \/ q = empty_partition).
+    { unfold l1 in Hq. destruct (Z.of_nat (length l0) <=? p); [|left; exact Hq].
+      apply in_app_or in Hq. destruct Hq as [Hq|Hq]; [left; exact Hq|right; exact (repeat_spec _ _ _ Hq)]. }
+    destruct Hq0 as [Hq0| ->]; [|left; reflexivity].
+    unfold l0 in Hq0. destruct (get (g_topics grp) t) as [l|]; [right; exists l; auto|destruct Hq0]. }
+  destruct (pr_ring (nth (Z.to_nat p) l1 empty_partition)); [apply H1|].
+  intros Hin. apply in_set_nth in Hin. destruct Hin as [->|Hin]; [|apply H1; exact Hin].
+  left. unfold part_ts, ring_ts, new_ring. cbn [pr_ring]. rewrite somes_repeat_none. reflexivity.
+Qed.
+
+Lemma grp_ok_empty : grp_ok empty_group.
+Proof. intros x [t [parts [pr [[] _]]]]. Qed.
+
+Lemma grp_or_empty_ok cl g : (forall g0 grp, get (cl_consumer cl) g0 = Some grp -> grp_ok grp) -> grp_ok (grp_or_empty cl g).
+Proof. intros H. unfold grp_or_empty. destruct (get (cl_consumer cl) g) eqn:E; [exact (H _ _ E)|exact grp_ok_empty]. Qed.
+
+Lemma gcp_old_le cf grp t p cnt pr x :
+  grp_ok grp -> In pr (get_consumer_partition cf grp t p cnt) -> In x (part_ts pr) -> x <= g_last grp.
+Proof.
+  intros Hok Hin Hx. destruct (gcp_parts _ _ _ _ _ _ Hin) as [He|[l0 [Hg Hl]]]; [rewrite He in Hx; destruct Hx|].
+  apply Hok. exists t, l0, pr. split; [exact (get_some_in _ _ _ Hg)|]. split; assumption.
+Qed.
+
+Lemma ts_inv_set s c0 cl' :
+  ts_inv s -> (forall g grp, get (cl_consumer cl') g = Some grp -> grp_ok grp) -> ts_inv (set s c0 cl').
+Proof.
+  intros Hinv Hcl c cl g grp. rewrite get_set. destruct (c0 =? c); [|apply Hinv].
+  intros H. injection H as <-. apply Hcl.
+Qed.
+
+Lemma cons_set_ok (cons : amap cgroup) g grp' :
+  (forall g0 grp, get cons g0 = Some grp -> grp_ok grp) -> grp_ok grp' ->
+  forall g0 grp, get (set cons g grp') g0 = Some grp -> grp_ok grp.
+Proof.
+  intros H Hn g0 grp. rewrite get_set. destruct (g =? g0); [intros E; injection E as <-; exact Hn|apply H].
+Qed.
+
+Lemma commit_keeps_ts_inv cf now s c g t p off order ts s' rep :
+  ts_inv s -> add_consumer_offset cf now s c g t p off order ts = Done s' rep -> ts_inv s'.
+Proof.
+  intros Hinv. unfold add_consumer_offset.
+  destruct (get s c) as [cl|] eqn:Hc; [|intros H; injection H as <- _; exact Hinv].
+  destruct (too_old cf now ts); [intros H; injection H as <- _; exact Hinv|].
+  destruct (negb (cf_accept cf g)); [intros H; injection H as <- _; exact Hinv|].
+  destruct (get_broker_offset cl t p) as [boff cnt].
+  destruct (cnt =? 0); [intros H; injection H as <- _; exact Hinv|].
+  cbv zeta.
+  assert (Hcl : forall g0 grp, get (cl_consumer cl) g0 = Some grp -> grp_ok grp) by (intros g0 grp; apply (Hinv _ _ _ _ Hc)).
+  fold (grp_or_empty cl g). pose proof (grp_or_empty_ok cl g Hcl) as Hgrp.
+  set (grp := grp_or_empty cl g) in *.
+  set (parts := get_consumer_partition cf grp t p cnt).
+  set (pr := nth (Z.to_nat p) parts empty_partition).
+  set (w := match pr_ring pr with Some w => w | None => [] end).
+  destruct (ring_step (cf_min_distance cf) w (mkCommit off order ts) (commit_lag boff off)) as [w' app] eqn:Ers.
+  intros H. injection H as <- _. apply ts_inv_set; [exact Hinv|]. cbn [cl_consumer]. apply cons_set_ok; [exact Hcl|].
+  destruct (ring_step_ts _ _ _ _ _ _ Ers) as [Hsame Hfrom]. cbn [cm_order cm_ts] in Hsame, Hfrom.
+  assert (Hw : forall y, In y (ring_ts w) -> y <= g_last grp).
+  { intros y Hy. unfold w in Hy. destruct (pr_ring pr) as [w0|] eqn:Epr; [|destruct Hy].
+    assert (Hyp : In y (part_ts pr)) by (unfold part_ts; rewrite Epr; exact Hy).
+    destruct (nth_in_or_default_cp parts (Z.to_nat p) empty_partition) as [Hin|Heq].
+    - exact (gcp_old_le cf grp t p cnt pr y Hgrp Hin Hyp).
+    - fold pr in Heq. rewrite Heq in Epr. discriminate. }
+  assert (Hlast : g_last grp <= (if commit_stored w order then Z.max ts (g_last grp) else g_last grp))
+    by (destruct (commit_stored w order); lia).
+  intros x Hx. cbn [g_topics g_last] in *. apply tents_set in Hx. destruct Hx as [[pr1 [Hin Hx]]|Hold].
+  - apply in_set_nth in Hin. destruct Hin as [->|Hin].
+    + unfold part_ts in Hx. cbn [pr_ring] in Hx. apply in_ring_ts in Hx. destruct Hx as [e [He <-]].
+      destruct (commit_stored w order) eqn:Est.
+      * destruct (Hfrom e He) as [Hts|[pv [Hpv Hts]]]; cbn [cm_ts] in Hts; rewrite Hts; [lia|].
+        pose proof (Hw _ (ring_ts_in _ _ Hpv)). lia.
+      * rewrite (Hsame eq_refl) in He. exact (Hw _ (ring_ts_in _ _ He)).
+    + pose proof (gcp_old_le cf grp t p cnt pr1 x Hgrp Hin Hx). lia.
+  - pose proof (Hgrp x Hold). lia.
+Qed.
+
+Lemma owner_keeps_ts_inv cf s c g t p owner client s' rep :
+  ts_inv s -> add_consumer_owner cf s c g t p owner client = Done s' rep -> ts_inv s'.
+Proof.
+  intros Hinv. unfold add_consumer_owner.
+  destruct (get s c) as [cl|] eqn:Hc; [|intros H; injection H as <- _; exact Hinv].
+  destruct (negb (cf_accept cf g)); [intros H; injection H as <- _; exact Hinv|].
+  assert (Hcl : forall g0 grp, get (cl_consumer cl) g0 = Some grp -> grp_ok grp) by (intros g0 grp; apply (Hinv _ _ _ _ Hc)).
+  cbv zeta. fold (grp_or_empty cl g). pose proof (grp_or_empty_ok cl g Hcl) as Hgrp.
+  set (grp := grp_or_empty cl g) in *.
+  destruct (get_broker_offset cl t p) as [boff cnt]. destruct (cnt =? 0).
+  - intros H. injection H as <- _. apply ts_inv_set; [exact Hinv|]. cbn [cl_consumer]. apply cons_set_ok; assumption.
+  - intros H. injection H as <- _. apply ts_inv_set; [exact Hinv|]. cbn [cl_consumer]. apply cons_set_ok; [exact Hcl|].
+    set (parts := get_consumer_partition cf grp t p cnt).
+    intros x Hx. cbn [g_topics g_last] in *. apply tents_set in Hx. destruct Hx as [[pr1 [Hin Hx]]|Hold]; [|exact (Hgrp x Hold)].
+    apply in_set_nth in Hin. destruct Hin as [->|Hin]; [|exact (gcp_old_le cf grp t p cnt pr1 x Hgrp Hin Hx)].
+    unfold part_ts in Hx. cbn [pr_ring] in Hx.
+    destruct (nth_in_or_default_cp parts (Z.to_nat p) empty_partition) as [Hin|Heq].
+    + exact (gcp_old_le cf grp t p cnt _ x Hgrp Hin Hx).
+    + rewrite Heq in Hx. destruct Hx.
+Qed.
+
+Theorem step_ts_inv cf now s r s' rep : ts_inv s -> step cf now s r = Done s' rep -> ts_inv s'.
+Proof.
+  intros Hinv. destruct r; cbn [step].
+  - destruct (add_broker_offset_shape cf s c t p cnt off) as [E|[E|[cl [tl [Hc E]]]]]; rewrite E; intros H;
+      [injection H as <- _; exact Hinv|discriminate|injection H as <- _].
+    apply ts_inv_set; [exact Hinv|]. cbn [cl_consumer]. intros g grp. apply (Hinv _ _ _ _ Hc).
+  - apply commit_keeps_ts_inv. exact Hinv.
+  - apply owner_keeps_ts_inv. exact Hinv.
+  - destruct (clear_consumer_owners_shape cf s c g) as [E|[cl [grp0 [Hc [_ [Hg0 E]]]]]];
+      rewrite E; intros H; injection H as <- _; [exact Hinv|].
+    apply ts_inv_set; [exact Hinv|]. cbn [cl_consumer]. apply cons_set_ok; [intros g0 grp; apply (Hinv _ _ _ _ Hc)|].
+    pose proof (Hinv _ _ _ _ Hc Hg0) as Hok. intros x [t [parts [pr [Hin [Hp Hx]]]]].
+    unfold clear_owners_group in Hin. cbn [g_topics g_last] in *. unfold map_vals in Hin. apply in_map_iff in Hin.
+    destruct Hin as [[t0 parts0] [Heq Hin]]. cbn [fst snd] in Heq. injection Heq as _ <-.
+    apply in_map_iff in Hp. destruct Hp as [pr0 [<- Hp0]]. apply Hok. exists t0, parts0, pr0. auto.
+  - rewrite delete_topic_eq. intros H. injection H as <- _. destruct (get s c) as [cl|] eqn:Hc; [|exact Hinv].
+    apply ts_inv_set; [exact Hinv|]. unfold dt_cluster. cbn [cl_consumer]. intros g grp. rewrite get_map_vals.
+    destruct (get (cl_consumer cl) g) as [grp0|] eqn:Hg; [|discriminate]. cbn [option_map]. intros H. injection H as <-.
+    intros x Hx. cbn [dt_group g_topics g_last] in *. apply (Hinv _ _ _ _ Hc Hg). exact (tents_remove _ _ _ Hx).
+  - rewrite delete_group_eq. intros H. injection H as <- _. destruct (get s c) as [cl|] eqn:Hc; [|exact Hinv].
+    destruct (get (cl_consumer cl) g) as [grp0|] eqn:Hg0; [|exact Hinv].
+    apply ts_inv_set; [exact Hinv|]. cbn [cl_consumer]. intros g1 grp Hg1.
+    destruct (Z.eq_dec g1 g) as [->|Hne]; [|rewrite get_dg_cons_other in Hg1 by exact Hne; exact (Hinv _ _ _ _ Hc Hg1)].
+    destruct (Z.eq_dec t 0) as [->|Ht]; [rewrite get_dg_cons_whole in Hg1; discriminate|].
+    rewrite get_dg_cons_topic in Hg1 by exact Ht. rewrite Hg0 in Hg1.
+    destruct (drops (g_topics grp0) t); [discriminate|]. injection Hg1 as <-.
+    intros x Hx. cbn [g_topics g_last] in *. apply (Hinv _ _ _ _ Hc Hg0). exact (tents_remove _ _ _ Hx).
+  - intros H. injection H as <- _. exact Hinv.
+  - destruct (get s c); intros H; injection H as <- _; exact Hinv.
+  - destruct (get s c); intros H; injection H as <- _; exact Hinv.
+  - intros H. apply fetch_consumer_state in H. destruct H as [->|[cl [grp [Hc [Hg [_ [_ ->]]]]]]]; [exact Hinv|].
+    apply ts_inv_set; [exact Hinv|]. cbn [cl_consumer]. intros g0 grp0. rewrite get_remove.
+    destruct (g =? g0); [discriminate|]. apply (Hinv _ _ _ _ Hc).
+  - unfold fetch_topic. destruct (get s c) as [cl|]; [destruct (get (cl_broker cl) t)|]; intros H; injection H as <- _; exact Hinv.
+  - unfold fetch_consumers_for_topic. destruct (get s c); intros H; injection H as <- _; exact Hinv.
+Qed.
+
+Lemma ts_inv_init cls : ts_inv (init_state cls).
+Proof.
+  intros c cl g grp Hc Hg. apply get_some_in in Hc. unfold init_state in Hc. apply in_map_iff in Hc.
+  destruct Hc as [x [Hx _]]. injection Hx as _ <-. discriminate Hg.
+Qed.
+
+Theorem run_ts_inv cf h : forall s s' reps, ts_inv s -> run cf s h = Some (s', reps) -> ts_inv s'.
+Proof.
+  induction h as [|[now r] rest IH]; intros s s' reps Hinv; cbn [run].
+  - intros H. injection H as <- _. exact Hinv.
+  - destruct (step cf now s r) as [s1 rep|] eqn:Es; [|discriminate].
+    destruct (run cf s1 rest) as [[s2 reps2]|] eqn:Er; [|discriminate].
+    intros H. injection H as <- _. exact (IH _ _ _ (step_ts_inv _ _ _ _ _ _ Hinv Es) Er).
+Qed.
+
+(* in every reachable state every commit a group stores has a timestamp <= the group's g_last *)
+Theorem stored_timestamps_below_last cf cls h s reps c cl g grp x :
+  run cf (init_state cls) h = Some (s, reps) ->
+  get s c = Some cl -> get (cl_consumer cl) g = Some grp -> In x (stored_ts grp) -> x <= g_last grp.
+Proof.
+  intros Hr Hc Hg Hx. apply (run_ts_inv cf h _ _ _ (ts_inv_init cls) Hr c cl g grp Hc Hg). apply stored_ts_tents. exact Hx.
+Qed.
+
+(* a group reported as not found by a fetch stores only commits older than the cut-off: a group with ANY stored commit inside
+   the expiry time is never purged *)
+Theorem purged_only_if_all_stored_expired cf cls h s reps now c g cl grp :
+  run cf (init_state cls) h = Some (s, reps) -> in_i64 ((now - cf_expire cf) * 1000) ->
+  get s c = Some cl -> get (cl_consumer cl) g = Some grp ->
+  obs cf now s (FetchConsumer c g) = Some RNil ->
+  forall x, In x (stored_ts grp) -> x < (now - cf_expire cf) * 1000.
+Proof.
+  intros Hr Hguard Hc Hg Hnil x Hx.
+  pose proof (stored_timestamps_below_last _ _ _ _ _ _ _ _ _ _ Hr Hc Hg Hx) as Hle.
+  apply (purged_iff_last_expired cf now s c g cl grp Hguard Hc Hg) in Hnil. lia.
+Qed.
+
+(* the converse is false, by design: a commit merged by min-distance keeps its predecessor's timestamp in the ring while the
+   group's newest commit time is its own (mg_state: the ring stores only 1 599 999 300, g_last = 1 600 000 000); at clock
+   1 601 000 s every STORED timestamp is older than the cut-off 1 600 000 000, yet the group is - rightly - still reported *)
+Theorem all_stored_expired_yet_reported :
+  exists cf cls h s reps now c g cl grp,
+    run cf (init_state cls) h = Some (s, reps) /\ in_i64 ((now - cf_expire cf) * 1000) /\
+    get s c = Some cl /\ get (cl_consumer cl) g = Some grp /\
+    (forall x, In x (stored_ts grp) -> x < (now - cf_expire cf) * 1000) /\
+    obs cf now s (FetchConsumer c g) <> Some RNil.
+Proof.
+  exists mg_cf, [1], mg_hist, mg_state, (repeat RNone 3), 1601000, 1, 1.
+  destruct (get mg_state 1) as [cl|] eqn:Hc; [|vm_compute in Hc; discriminate].
+  destruct (get (cl_consumer cl) 1) as [grp|] eqn:Hg; [|vm_compute in Hc; injection Hc as <-; vm_compute in Hg; discriminate].
+  exists cl, grp. split; [vm_compute; reflexivity|]. split; [unfold in_i64; vm_compute; split; [discriminate|reflexivity]|].
+  split; [reflexivity|]. split; [first [reflexivity|exact Hg]|].
+  vm_compute in Hc. injection Hc as <-. vm_compute in Hg. injection Hg as <-.
+  split; [|vm_compute; discriminate]. intros x Hx. vm_compute in Hx. destruct Hx as [<-|[]]. vm_compute. reflexivity.
+Qed.
